@@ -55,7 +55,7 @@ Definition sx_pres (r : pres pairs) : sx :=
   | POom => SL [SB sym_oom]
   end.
 
-Definition run_attr (kind : bytes) (a : sx) : option sx :=
+Definition run_Attr (kind : bytes) (a : sx) : option sx :=
   if bytes_eqb kind [97;116;116;114;95;104;105;115;116;111;114;121] (* attr_history *) then
     Some (match a with
           | SL [SI flavor; SL ops] => SL (attr_ops flavor init ops)
